@@ -100,6 +100,12 @@ impl Check for C06 {
         struct Cl { session: bool, live: bool, names: Vec<(NameUse, String)>, pool: Vec<NameUse>, steps: u64, pending_use: bool, lang: String }
         let mut cls: Vec<Cl> = (0..k).map(|_| Cl { session: r.chance(2, 3), live: false, names: vec![], pool: g.name_pool(&mut r, 4), steps: 3 + r.below(8), pending_use: false, lang: if r.chance(1, 6) { "tr".into() } else { "en".into() } }).collect();
         let thorough_pairs = tier == "thorough";
+        // an AUDITOR session (actor 9, half of the runs): the same two ordered currency pairs converted again and
+        // again, with other amounts, through one long-lived session - whatever that session keeps about a pair
+        // meets a rate update of that pair sooner or later
+        let auditor: Option<[(String, String); 2]> = if r.chance(1, 2) { Some([(g.rated_code(&mut r), g.rated_code(&mut r)), (g.rated_code(&mut r), g.rated_code(&mut r))]) } else { None };
+        let mut auditor_live = false;
+        let mut auditor_pending = false;
         let sep_changes = r.chance(1, 3);
         let mut budget = 200;
         while cls.iter().any(|c| c.steps > 0) && budget > 0 {
@@ -107,7 +113,27 @@ impl Check for C06 {
             t = advance(&mut r, t);
             let clock = ClockScript::Frozen { t };
             // bias: right after a binding, the administrator is likely to move a rate the binding depends on
-            let pending: Vec<String> = cls.iter().filter(|c| c.pending_use).flat_map(|c| c.names.iter().map(|(_, code)| code.clone())).collect();
+            let mut pending: Vec<String> = cls.iter().filter(|c| c.pending_use).flat_map(|c| c.names.iter().map(|(_, code)| code.clone())).collect();
+            if let (Some(a), true) = (&auditor, auditor_pending) { for (x, y) in a.iter() { pending.push(x.clone()); pending.push(y.clone()); } }
+            if let Some(a) = &auditor {
+                if r.chance(1, 4) {
+                    if !auditor_live { auditor_live = true; events.push(Event { actor: 9, op: Op::SessionNew { lang: "en".into() }, clock: ClockScript::Frozen { t } }); }
+                    let mut lines = Vec::new();
+                    for (x, y) in a.iter() {
+                        if r.chance(3, 4) {
+                            let n = g.num(&mut r);
+                            let ml = g.money_of(&mut r, x, NumLit { suffix: None, ..n });
+                            lines.push(Line::Sem(Stmt::Eval(Expr::ToCur { e: Box::new(Expr::Lit(Lit::Money(ml))), conn: conn(&mut r), word: g.currency_word(&mut r, y), code: y.clone() })));
+                        }
+                    }
+                    if !lines.is_empty() {
+                        let nl = lines.len();
+                        events.push(Event { actor: 9, op: Op::SessionText { text: TextSpec { lines, crlf: vec![false; nl], trailing_nl: false } }, clock: ClockScript::Frozen { t } });
+                        auditor_pending = true;
+                        continue;
+                    }
+                }
+            }
             let admin_now = faults && (if !pending.is_empty() { r.chance(1, 2) } else { r.chance(1, 5) });
             if faults && sep_changes && r.chance(1, 12) {
                 // the separator convention changes (both setters, either order): literals are written in the
@@ -121,6 +147,7 @@ impl Check for C06 {
             if admin_now {
                 events.push(Event { actor: ADMIN, op: Op::Admin(gen_update(&mut r, &g, &pending)), clock });
                 for c in cls.iter_mut() { c.pending_use = false; }
+                auditor_pending = false;
                 continue;
             }
             let live: Vec<usize> = (0..cls.len()).filter(|i| cls[*i].steps > 0).collect();
@@ -181,10 +208,11 @@ impl Check for C06 {
                 events.push(Event { actor: who as u8, op: Op::Execute { lang: c.lang.clone(), text }, clock });
             }
         }
-        crate::gen::session_variants(&mut r, &mut events, 4, 12, 0);
+        crate::gen::session_variants(&mut r, &mut events, 4, 5, 0);
         crate::gen::nest_variants(&mut r, &mut events);
         crate::gen::builtin_delete_variants(&mut r, &mut events, &["convert_money", "money_on", "money_of", "money_off"]);
-        crate::gen::unwind_variants(&mut r, &mut events);
+        // (more often than elsewhere: a text that converts and is then lost, a rate update, the same text again)
+        crate::gen::unwind_variants_at(&mut r, &mut events, 3, 4);
         crate::gen::decliner_variants(&mut r, &mut events);
         if r.chance(1, 5) {
             // the calculator is built from a JSON table in which the dollar does not stand at 1 (the very first event:
